@@ -36,6 +36,7 @@ META = {
 
 THEOREMS = [
     "C13_mapping",
+    "C13_tables_known",
     "C13_hierarchy",
     "C13_handled_ok",
     "C13_mapping_layers",
@@ -61,7 +62,8 @@ CORPUS_DIR = os.path.join(VERIF, "corpus", "C13")
 
 # --------------------------------------------------------------------------- U-errors-table
 def table_impl():
-    """the decision table computed by Python on the live classes (issubclass) and the AST (except lists)"""
+    """the decision table computed by Python on the live classes (issubclass) and the handler lists of the translator
+    (observed on the working tree; AST as fall-back)"""
     import importlib.util
     from vlib import mp  # noqa: F401  (puts VERIF_REPO first on sys.path before the plug-in imports montepy)
 
@@ -187,7 +189,9 @@ def run_inject(case):
     elif site == "dataLoop":
         patches.append(mock.patch.object(montepy.data_inputs.mode.Mode, "update_pointers", boom, create=True))
     elif site == "loadData":
-        patches.append(mock.patch.object(P.MCNP_Problem, "_MCNP_Problem__load_data_inputs_to_object", boom))
+        # the private method by its written name (a class renamed around it keeps the harness working)
+        priv = [n for n in vars(P.MCNP_Problem) if n.endswith("__load_data_inputs_to_object")]
+        patches.append(mock.patch.object(P.MCNP_Problem, priv[0] if priv else "_MCNP_Problem__load_data_inputs_to_object", boom, create=not priv))
     elif site == "blankModifiers":
         # UniverseInput.push_to_cells is called from __setup_blank_cell_modifiers only (and always: `_universe` is in
         # inputs_to_always_update)
